@@ -341,9 +341,9 @@ def driver_body(ctx, case):
 
 
 SUBCHECKS = [
-    SubCheck("list_semantics", body=list_body, strategy=list_case, examples={"quick": 10, "thorough": 150}, shards={"quick": 8, "thorough": 12}),
+    SubCheck("list_semantics", body=list_body, strategy=list_case, examples={"quick": 10, "thorough": 150}, shards={"quick": 8, "thorough": 12}, shrink=False),
     SubCheck("determinant_files", body=file_body, strategy=file_case, examples={"quick": 150, "thorough": 2000}, shards={"quick": 1, "thorough": 2}),
-    SubCheck("exact_trial_local_energy", body=eig_body, strategy=eig_case, examples={"quick": 12, "thorough": 150}, shards={"quick": 4, "thorough": 6}),
+    SubCheck("exact_trial_local_energy", body=eig_body, strategy=eig_case, examples={"quick": 12, "thorough": 150}, shards={"quick": 4, "thorough": 6}, shrink=False),
     SubCheck("fci_molecules", body=mol_body, strategy=mol_case, examples={"quick": 3, "thorough": 30}, shards={"quick": 2, "thorough": 4}, shrink=False),
     SubCheck("exact_trial_driver_runs", body=driver_body, strategy=driver_case, examples={"quick": 2, "thorough": 12}, shards={"quick": 2, "thorough": 6}, shrink=False),
 ]
